@@ -56,14 +56,8 @@ NeverNegative == b >= 0
 \* the lemma behind the window bound: the penalty never exceeds 10 s plus the charge of the last line
 Bounded == b <= Threshold + 750
 
-RECURSIVE Sum(_, _, _)
-Sum(h, i, j) == IF i > j THEN 0 ELSE h[i].c + Sum(h, i + 1, j)
-\* "their total charge never exceeds the wall-clock time between the first and last write by
-\*  more than 10 s plus two lines' charges" (here: the first and the last line of the run)
-WindowBound ==
-  \A i, j \in 1..Len(hist) : i <= j =>
-     Sum(hist, i, j) <= (hist[j].w - hist[i].w) + Threshold + hist[i].c + hist[j].c
-
+\* (the window bound itself, which needs a recursive sum over the history, is in MCFlood.tla:
+\*  the proof system reads this module - FloodProof.tla - and does not accept RECURSIVE)
 \* the decision rule as an action property: held exactly when the penalty exceeds the threshold
 HeldIffOver == [][lastOp'.op = "send" => (lastOp'.held <=> lastOp'.after > Threshold)]_vars
 =============================================================================
